@@ -1,7 +1,8 @@
 """C06 - scheduling is pure and deterministic in WBS, resources, start and clock.   (DESIGN.md section 5, C06)
 
 Decided: purity of calc w.r.t. its input (effect analysis with receiver provenance + the clone provenance rule),
-the frame of the scheduler's writes, definite assignment of start/end, freshness of ledger and memo, the enumerated
+the frame of the scheduler's writes (round 8/9: per-call state re-initialised by calc, fields of the per-call ledger / parameter
+object and memo caches filled by getters are not writes in the sense of this property), definite assignment of start/end, freshness of ledger and memo, the enumerated
 nondeterminism sources, and for every clock read of the forward scheduler whether it is neutralised by a term bounded
 below by the project start.  Not decided: statefulness of user supplied IResource.reserve; bitwise float equality.
 """
@@ -45,7 +46,10 @@ def check(ctx):
         except ImportError as e:
             o.fail(f"rules/clone_common.py not available: {e}")
             return
-        clone_provenance(ctx, o)
+        from .c02 import _Only
+        # a derived-view getter that fills its memo cache on a source task changes nothing observable (C06); whether the cache is
+        # kept consistent is C10's / C01's matter
+        clone_provenance(ctx, _Only(o, drop=("(getter all_children)", "(getter all_parents)")))
     ctx.guarded(o, prov)
 
     o = ctx.ob('copy_is_faithful', 'R9',
@@ -147,7 +151,7 @@ def input_untouched(ctx, o, eff: Effects):
                 continue        # its loop body was checked to contain tests and raises only
             p0 = vf.params[-1] if vf.kind != 'method' else vf.params[1]
             bad = [k for k in eff.writes_star(vf) if k[1] != 'fresh' and ('param:' + p0 in k[1] or k[1].startswith('mixed') or k[1] == 'unknown')]
-            bad = [k for k in bad if not _bookkeeping_container(prog, eff, vf, k)]
+            bad = [k for k in bad if not _bookkeeping_container(prog, eff, vf, k) and k[0] not in _memo_cache_fields(prog)]
             real = [k for k in bad if 'param:' + p0 in k[1]]
             if real:
                 for k in real:
@@ -254,6 +258,9 @@ def frame(ctx, o, eff: Effects):
                 if fld in TASK_DATA_FIELDS:
                     o.site(f, f.node, f"writes {unmangle(fld)} ({root})")
                     continue
+                if fld in _memo_cache_fields(prog):
+                    o.site(f, f.node, f"{unmangle(fld)}: a cache filled by a getter (not observable state)")
+                    continue
                 if fld == 'rows' and 'resource_usage' in root or fld == 'rows':
                     o.site(f, f.node, "ledger rows")
                     continue
@@ -265,7 +272,13 @@ def frame(ctx, o, eff: Effects):
                     continue
                 if root.startswith('param:') and root[6:] in f.params and \
                         base(ctx.typer.expr_type(ast.Name(id=root[6:], ctx=ast.Load()), f)) == '_ResourceUsage':
-                    o.site(f, f.node, f"ledger state {unmangle(fld)} (the ledger object is allocated per calc)")
+                    if fld in _ledger_instance_fields(prog):
+                        o.site(f, f.node, f"ledger state {unmangle(fld)} (allocated by _ResourceUsage.__init__ for the ledger of this calc)")
+                        continue
+                    chain = ' -> '.join(eff.explain(f, (fld, root))[-2:])
+                    o.refute(f, f.node, f"{unmangle(fld)}@{root}", f"the scheduler writes ledger state `{unmangle(fld)}` that _ResourceUsage.__init__ does not "
+                                                                   f"allocate per ledger (a class attribute is shared by every ledger of the process: bookings "
+                                                                   f"of an earlier calc are still counted): {chain}")
                     continue
                 if fld == '<container>' and root.startswith('param:') and root[6:] in f.params[4:5] + [f.params[-1]]:
                     o.site(f, f.node, "memo list")
@@ -313,6 +326,51 @@ def frame(ctx, o, eff: Effects):
                             (t.kind == 'setter' and t.prop in ('parent', 'children', 'predecessors', 'successors', 'roots')
                              or t.name in ('append', 'remove', 'insert', 'move', 'sort', 'reorder', 'remove_all', '__setattr__')) and ci.resolved:
                         o.refute(f, ci.node, ci.node, f"the scheduler calls {t.qual}: the structure of the result must be that of the clone")
+
+
+_CACHE_FIELDS = {}
+
+
+def _memo_cache_fields(prog):
+    """private fields of Task that only ever receive None / an empty value, or a value computed inside a property getter (or a
+    `__get_*` helper of one) - memo caches of derived views (`all_parents`, `all_children`).  Filling such a cache changes nothing
+    an observer can see, so it is not a write in the sense of C06 (whether the cache is invalidated correctly is C01's / C10's
+    question).  Relation, owner and data fields are never caches."""
+    key = id(prog)
+    if key in _CACHE_FIELDS:
+        return _CACHE_FIELDS[key]
+    STATE = {'_Task__parent', '_Task__children', '_Task__predecessors', '_Task__successors', '_Task__wbs', '_Task__id',
+             '_Task__estimate', '_Task__spent', '_Task__min_start', '_Task__milestone'}
+    stores = {}
+    for g in prog.all_funcs():
+        if g.module.name != 'task' or isinstance(g.node, ast.Lambda):
+            continue
+        for st, tgt, val in facts.attr_stores(g):
+            if tgt.attr.startswith('_Task__') and isinstance(tgt.value, ast.Name):
+                stores.setdefault(tgt.attr, []).append((g, val))
+    out = set()
+    for fld, sts in stores.items():
+        if fld in STATE:
+            continue
+        filled = [(g, v) for g, v in sts if not (isinstance(v, ast.Constant) and v.value is None) and not (isinstance(v, (ast.List, ast.Dict, ast.Tuple)) and not getattr(v, 'elts', getattr(v, 'keys', None)))]
+        if filled and all(g.kind == 'getter' or g.name.startswith('__get_') for g, v in filled):
+            out.add(fld)
+    _CACHE_FIELDS[key] = out
+    return out
+
+
+def _ledger_instance_fields(prog):
+    """fields that _ResourceUsage.__init__ sets to a fresh container / constant on the new ledger object"""
+    init = prog.funcs.get('schedule._ResourceUsage.__init__')
+    out = set()
+    if init is None:
+        return out
+    for st, tgt, val in facts.attr_stores(init):
+        if isinstance(tgt.value, ast.Name) and tgt.value.id == init.params[0] and (
+                isinstance(val, (ast.Constant, ast.List, ast.Dict, ast.Set)) or match("set()", val) or match("dict()", val) or match("list()", val)
+                or (isinstance(val, ast.Call) and isinstance(val.func, ast.Name) and val.func.id in ('defaultdict', 'OrderedDict', 'Counter'))):
+            out.add(tgt.attr)
+    return out
 
 
 def _per_call_state(ctx, S):
@@ -383,6 +441,9 @@ def fresh(ctx, o, eff: Effects):
                                              f"an earlier calc leak into this one")
             if match("[]", memo) or match("list()", memo) or match("set()", memo):
                 o.site(calc, c, "memo local to calc")
+            elif isinstance(memo, (ast.ListComp, ast.SetComp)) or (isinstance(memo, (ast.List, ast.Set)) and memo.elts):
+                o.refute(calc, c, c.args[3], f"the memo handed to the pass starts non-empty (`{src(memo)[:70]}`): every task whose id equals a "
+                                             f"pre-marked id is skipped and gets no dates (ids are unique only inside one WBS)")
             elif isinstance(memo, ast.Name) and memo.id not in calc.params and flow_of(calc).defs_of(memo.id):
                 o.undecided(calc, c, c.args[3], f"the memo handed to the pass is the local `{memo.id}`, which could not be resolved to one allocation")
             else:
